@@ -124,6 +124,47 @@ def correspondence(ctx):
             for j in bad:
                 i = names[j][0]
                 failures.append({"case": cases[i], "impl": res[i], "why": "generated tensor()/inverted tensor() differs from the implementation"})
+    # velocity-field model on affine invariant generators: exp_k and the round trip of the Coq model vs the implementation
+    na = ctx.n(40, 300)
+    acases = []
+    for i in range(na):
+        as_param = rng.random() < 0.4
+        link = rng.random() < 0.5 and not as_param
+        acases.append({"size": rng.choice([[33, 29], [17, 21], [25, 25]]), "align": rng.random() < 0.5,
+                       "h": [dy(rng, -0.5, 0.5, 4), dy(rng, -0.5, 0.5, 4)], "steps": rng.choice([0, 1, 2, 3, 5, 6]),
+                       "as_parameter": as_param, "link": link, "upd": rng.random() < 0.5, "pre_update": rng.random() < 0.5,
+                       "inv_property": (not as_param) and rng.random() < 0.15,
+                       "x": [[dy(rng, -0.5, 0.5, 4), dy(rng, -0.5, 0.5, 4)] for _ in range(3)]})
+    ares = vlib.run_impl("c07_impl", {"fn": "affine_velocity", "cases": acases})
+    alines = ["From Coq Require Import ZArith QArith List String.",
+              "From DV Require Import Base.Field Base.QcInst Model.VelocityAffine.",
+              "Import ListNotations.", "Definition tol : Q := 1 # 10000000.",
+              "Definition pt (k : nat) (h x y z : Qc) : bool := qclose tol (Qcmult x (exp_k (K:=QcF) k (q 1 1) h)) y "
+              "&& qclose tol (Qcmult x (round_trip (K:=QcF) k h)) z."]
+    anames = []
+    for i, (c, r) in enumerate(zip(acases, ares)):
+        tag = f"affine_velocity:steps={c['steps']}"
+        dist[tag] = dist.get(tag, 0) + 1
+        if "error" in r:
+            failures.append({"case": c, "impl": r, "why": "implementation raised on an affine velocity field"})
+            continue
+        terms = []
+        for xp, yp, zp in zip(c["x"], r["y"], r["z"]):
+            for d in range(2):
+                terms.append(f"pt {c['steps']} {qc(c['h'][d])} {qc(xp[d])} {qc(yp[d])} {qc(zp[d])}")
+        alines.append(f"Definition a{i} : bool := " + " && ".join(terms) + ".")
+        anames.append((i, f"a{i}"))
+    alines.append("Definition results : list bool := " + coq_list([nm for _, nm in anames]) + ".")
+    alines.append('Eval vm_compute in ("FAIL"%string, failing results).')
+    rc, out = vlib.coqc_text("\n".join(alines) + "\n", ctx.scratch, "cases_c07_affine")
+    bad = vlib.parse_nat_list(out, "FAIL")
+    if rc != 0 or bad is None:
+        failures.append({"why": "affine velocity case file did not evaluate", "coq": out[-600:]})
+    else:
+        for j in bad:
+            i = anames[j][0]
+            failures.append({"case": acases[i], "impl": ares[i], "why": "scaling and squaring of an affine generator differs from exp_k / the round trip closed form"})
+    evaluations += len(acases)
     # the shared state machine (inverse / link / in-place updates), on histories biased towards inverses
     tables = c09.tables_of(ctx)
     nh = ctx.n(120, 700)
@@ -168,6 +209,9 @@ def search(ctx, broken, corr_failures):
     for f in corr_failures[:3]:
         if "history" in f:
             out.append(Violation(key=f"C07:model-vs-implementation:{f['history'][-1]['op']}", what=f["why"], replay={"history": f["history"]}))
+        elif "case" in f and "cls" not in f["case"]:
+            out.append(Violation(key="C07:StationaryVelocityFieldTransform.inverse:affine-generator:model-vs-implementation", what=f["why"],
+                                 replay={"affine_case": f["case"], "impl": f.get("impl")}))
         elif "case" in f:
             out.append(Violation(key=f"C07:{f['case']['cls']}.tensor:model-vs-implementation", what=f["why"], replay={"case": f["case"], "impl": f.get("impl")}))
     return out
@@ -187,6 +231,9 @@ def replay(ctx, data):
         return None
     if "history" in data:
         return c09.replay(ctx, data)
+    if "affine_case" in data:
+        r = vlib.run_impl("c07_impl", {"fn": "affine_velocity", "cases": [data["affine_case"]]})
+        return ("recorded affine case: " + str(r[0])[:200]) if r[0] != data.get("impl") or "error" in r[0] else "recorded affine case reproduces the same output"
     if "case" in data:
         r = vlib.run_impl("c07_impl", {"fn": "tensors", "cases": [data["case"]]})
         return "recorded case: " + str(r[0])[:200] if "error" in r[0] else None
